@@ -9,15 +9,21 @@ LEVEL = "model_checking"
 RULE = ("every regex AST with <= 5 (thorough: 6) nodes over leaves {a, b, ., [ab], [a-c], \\*, \\(} and constructors {concat, |, *, +, ?}; "
         "each AST is presented three ways: minimally parenthesised text, text with every operand parenthesised, and built through the "
         "public Regex API (so a parser defect cannot mask the derivative/DFA code); per presentation: (i) the DFA tables are run on every "
-        "string of length <= 5 (thorough 6) over {a,b,c,*,(} and compared with re.fullmatch (DOTALL), (ii) the full product automaton of the "
+        "string of length <= 5 (thorough 6) over {a,b,c,*,(}, plus 152 strings of length <= 2 containing newline, NUL, 0xff or a neighbour of a class "
+        "boundary, and compared with re.fullmatch (DOTALL), (ii) the full product automaton of the "
         "compiled DFA with a lazily determinised Thompson NFA built from the AST is explored over the exact byte-class partition of 0..255 "
-        "(no length bound; acceptance must agree in every reachable product state), (iii) scan() on every string of length <= 4 (thorough 5) "
+        "(no length bound; acceptance must agree in every reachable product state), (iii) scan() on every string of length <= 4 (thorough: 5 "
+        "for ASTs of <= 5 nodes) "
         "vs a brute-force maximal-munch tokeniser, (iv) make_scanner on every ordered pair of ASTs with <= 2 (thorough 3) nodes; distinct "
         "non-trivial = distinct (number of DFA states, set of accepted strings) with a language that is neither empty nor everything")
 ASSUMPTIONS = [
     "reference engine: CPython re.fullmatch with re.DOTALL ('.' = any byte, which is what ppci's SIGMA = 0..255 denotes)",
     "reference Thompson NFA written in /verif; for every AST it is compared with re on all bounded strings before it is used (a disagreement "
     "makes the AST unclassified, never a violation)",
+    "re is exponential on deeply nested quantifiers: with 3 nested quantifiers re judges strings of length <= 5, with 4 or more those of length <= 3, and the reference NFA "
+    "(validated on those) judges the longer ones; counted in n_strings_judged_by_reference_nfa_only",
+    "non-termination of compile() is decided by a deterministic work budget of 5000 sub-expression derivative() calls (terminating "
+    "expressions of the enumerated sizes need < 1000), counted by wrappers installed from the check (not by editing /repo)",
     "symbols are bytes 0..255 (ppci's SIGMA); code points above 255, complemented classes [^..], anchors, counted repetition and empty "
     "alternatives are outside the supported syntax named by the property and are not generated",
     "scanner on a nullable expression: only the tokens before the first empty longest match are compared (scan() then yields '' forever; "
@@ -344,6 +350,17 @@ def strings(L):
     return _STR_CACHE[L]
 
 
+PROBE_SYMBOLS = ALPHA + "\n\x00z\xffd)+`"
+PROBES = ["".join(t) for n in (1, 2) for t in itertools.product(PROBE_SYMBOLS, repeat=n) if any(c not in ALPHA for c in t)]
+
+
+def accepts(aut, acc, s):
+    st = aut.start
+    for c in s:
+        st = aut.step(st, ord(c))
+    return acc(st)
+
+
 def re_language(text, ss):
     fm = re.compile(text, re.DOTALL).fullmatch
     return [fm(s) is not None for s in ss]
@@ -379,7 +396,7 @@ def ref_munch(s, member, nullable):
 
 # ---------------------------------------------------------------- ppci side
 
-WORK_BUDGET = 20000
+WORK_BUDGET = 5000
 
 
 class WorkLimit(Exception):
@@ -500,12 +517,15 @@ def show(s):
     return repr(s)
 
 
-def check_case(p, ast, mode, text, nfa, R, L, Ls, seen_tables):
+def check_case(p, ast, mode, text, nfa, R, L, Ls, seen_tables, order=None, RP=None):
     """One presentation of one AST.  Returns the compiled tables (or None)."""
     from ppci.lang.tools import regex as rx
     from ppci.lang.tools.regex.scanner import pick_transition
     from vf.core import cpu_limit, CpuTimeout, exc_key
     ss, parent, last = strings(L)
+
+    def viol(key, what, wit):
+        p.violation(key, what, wit, order=order)
     w = {"kind": "regex", "ast": to_list(ast), "mode": mode}
     label = "regex %s" % show(text) if mode != "api" else "Regex API object for %s" % show(text)
 
@@ -522,7 +542,7 @@ def check_case(p, ast, mode, text, nfa, R, L, Ls, seen_tables):
         expr = build_api(ast) if mode == "api" else rx.parse(text)
     except Exception as ex:  # noqa
         p.add()
-        p.violation(locus(exc_key("parser" if mode != "api" else "api", ex)), "%s: %s raised %s: %s (re accepts the expression)"
+        viol(locus(exc_key("parser" if mode != "api" else "api", ex)), "%s: %s raised %s: %s (re accepts the expression)"
                     % (label, "parse" if mode != "api" else "building the expression", type(ex).__name__, ex), w)
         return None
     try:
@@ -531,14 +551,14 @@ def check_case(p, ast, mode, text, nfa, R, L, Ls, seen_tables):
         p.collect("derivative_work_max_bucket", "%05d" % (box[0] // 100 * 100))
     except (WorkLimit, RecursionError, CpuTimeout) as ex:
         p.add()
-        p.violation(locus("compile/diverges"), "%s: compile does not terminate (%s; expressions of this size that terminate need < 1000); "
+        viol(locus("compile/diverges"), "%s: compile does not terminate (%s; expressions of this size that terminate need < 1000); "
                     "the subset-construction DFA of this expression has %d states"
                     % (label, "more than %d sub-expression derivatives taken" % WORK_BUDGET if isinstance(ex, WorkLimit)
                        else type(ex).__name__, reference_dfa_size(ast)), w)
         return None
     except Exception as ex:  # noqa
         p.add()
-        p.violation(locus(exc_key("compile", ex)), "%s: compile raised %s: %s (re accepts the expression; %d strings of length <= %d match)"
+        viol(locus(exc_key("compile", ex)), "%s: compile raised %s: %s (re accepts the expression; %d strings of length <= %d match)"
                     % (label, type(ex).__name__, ex, sum(R), L), w)
         return None
     if mode != "api":
@@ -548,11 +568,11 @@ def check_case(p, ast, mode, text, nfa, R, L, Ls, seen_tables):
                 prog = rx.compile(text)
         except CpuTimeout:
             p.add()
-            p.violation(locus("compile/diverges"), "%s: compile(str) does not terminate although compile(parse(str)) does" % label, w)
+            viol(locus("compile/diverges"), "%s: compile(str) does not terminate although compile(parse(str)) does" % label, w)
             return None
         except Exception as ex:  # noqa
             p.add()
-            p.violation(locus(exc_key("compile", ex)), "%s: compile raised %s: %s" % (label, type(ex).__name__, ex), w)
+            viol(locus(exc_key("compile", ex)), "%s: compile raised %s: %s" % (label, type(ex).__name__, ex), w)
             return None
     if prog in seen_tables:
         p.count("presentations_with_identical_tables")
@@ -564,31 +584,43 @@ def check_case(p, ast, mode, text, nfa, R, L, Ls, seen_tables):
         P = run_automaton(dfa, dfa.acc_of, parent, last)
     except Exception as ex:  # noqa
         p.add()
-        p.violation(locus(exc_key("dfa", ex)), "%s: running the DFA tables raised %s: %s" % (label, type(ex).__name__, ex), w)
+        viol(locus(exc_key("dfa", ex)), "%s: running the DFA tables raised %s: %s" % (label, type(ex).__name__, ex), w)
         return None
     p.add(len(ss))
     p.count("strings_run_on_tables", len(ss))
     if P != R:
         i = next(i for i in range(len(ss)) if P[i] != R[i])
         ww = dict(w, s=ss[i])
-        p.violation(locus(feature_key("dfa", ast)), "%s: DFA %s %s, re.fullmatch %s it (%d of %d strings of length <= %d differ)"
+        viol(locus(feature_key("dfa", ast)), "%s: DFA %s %s, re.fullmatch %s it (%d of %d strings of length <= %d differ)"
                     % (label, "accepts" if P[i] else "rejects", show(ss[i]), "accepts" if R[i] else "rejects",
                        sum(1 for a, b in zip(P, R) if a != b), len(ss), L), ww)
         return None
+    # (i') strings with bytes outside the alphabet (newline, NUL, 0xff, neighbours of the class boundaries)
+    if RP is not None:
+        p.add(len(PROBES))
+        try:
+            for s, r in zip(PROBES, RP):
+                if accepts(dfa, dfa.acc_of, s) != r:
+                    viol(locus(feature_key("dfa", ast)), "%s: DFA %s %s, re.fullmatch %s it" % (label, "rejects" if r else "accepts", show(s),
+                                                                                             "accepts" if r else "rejects"), dict(w, s=s))
+                    return None
+        except Exception as ex:  # noqa
+            viol(locus(exc_key("dfa", ex)), "%s: stepping the DFA tables raised %s: %s" % (label, type(ex).__name__, ex), w)
+            return None
     # (ii) product automaton, all bytes, no length bound
     reps = class_reps(dfa.boundaries(), nfa.boundaries())
     try:
         path, nst, ntr = product(dfa, nfa, reps, dfa.acc_of, lambda i: nfa.acc[i])
     except Exception as ex:  # noqa
         p.add()
-        p.violation(locus(exc_key("dfa", ex)), "%s: stepping the DFA tables raised %s: %s" % (label, type(ex).__name__, ex), w)
+        viol(locus(exc_key("dfa", ex)), "%s: stepping the DFA tables raised %s: %s" % (label, type(ex).__name__, ex), w)
         return None
     p.count("product_states", nst)
     p.count("product_transitions", ntr)
     p.add(nst)
     if path is not None:
         s = "".join(map(chr, path))
-        p.violation(locus(feature_key("dfa", ast)), "%s: DFA and reference NFA disagree on %s (found by product exploration)" % (label, show(s)),
+        viol(locus(feature_key("dfa", ast)), "%s: DFA and reference NFA disagree on %s (found by product exploration)" % (label, show(s)),
                     dict(w, s=s))
         return None
     nacc = sum(R)
@@ -611,7 +643,7 @@ def check_case(p, ast, mode, text, nfa, R, L, Ls, seen_tables):
         except ValueError:
             err = "ValueError"
         except Exception as ex:  # noqa
-            p.violation(exc_key("scan", ex), "%s: scan(%s) raised %s: %s" % (label, show(s), type(ex).__name__, ex), dict(w, s=s, stage="scan"))
+            viol(exc_key("scan", ex), "%s: scan(%s) raised %s: %s" % (label, show(s), type(ex).__name__, ex), dict(w, s=s, stage="scan"))
             break
         if status == "empty":
             ok = got == exp_toks
@@ -623,7 +655,7 @@ def check_case(p, ast, mode, text, nfa, R, L, Ls, seen_tables):
             ok = got == exp_toks and err is not None
             kind = "split" if got != exp_toks else "missing-error"
         if not ok:
-            p.violation("scan/" + kind, "%s: scan(%s) gave %r%s, maximal munch gives %r%s"
+            viol("scan/" + kind, "%s: scan(%s) gave %r%s, maximal munch gives %r%s"
                         % (label, show(s), got, " then ValueError" if err else "", exp_toks,
                            {"end": "", "error": " then no match", "empty": " (then only the empty token matches)"}[status]),
                         dict(w, s=s, stage="scan"))
@@ -631,38 +663,71 @@ def check_case(p, ast, mode, text, nfa, R, L, Ls, seen_tables):
     return prog
 
 
-def check_ast(p, ast, L, Ls, modes=("min", "full", "api")):
+def quant_depth(a):
+    if a[0] == "l":
+        return 0
+    d = max(quant_depth(x) for x in a[1:])
+    return d + 1 if a[0] in "*+?" else d
+
+
+def re_length_bound(ast, L):
+    """CPython's backtracking matcher is exponential in the string length on deeply nested quantifiers (one 5-node expression
+    needs minutes for the strings of length 5): with 3 nested quantifiers re judges the strings of length <= 5 only, with more
+    than 3 those of length <= 3; the
+    longer ones are judged by the reference NFA, which has then agreed with re on every shorter string of this expression."""
+    d = quant_depth(ast)
+    return L if d <= 2 else (min(L, 5) if d == 3 else 3)
+
+
+def check_ast(p, ast, L, Ls, modes=("min", "full", "api"), order=None):
     ss, parent, last = strings(L)
     tmin = render(ast, "min")
-    R = re_language(tmin, ss)
+    nre = len(strings(re_length_bound(ast, L))[0])
+    R = re_language(tmin, ss[:nre])
     nfa = RefNFA(ast)
     N = run_automaton(nfa, lambda i: nfa.acc[i], parent, last)
-    if N != R:
+    if N[:nre] != R:
         p.count("unclassified_reference_nfa_disagrees_with_re")
         p.collect("unclassified_regexes", tmin)
         return
+    RP = re_language(tmin, PROBES)
+    if RP != [accepts(nfa, lambda i: nfa.acc[i], s) for s in PROBES]:
+        p.count("unclassified_reference_nfa_disagrees_with_re")
+        p.collect("unclassified_regexes", tmin)
+        return
+    p.count("strings_judged_by_re", nre + len(PROBES))
+    if nre < len(ss):
+        p.count("strings_judged_by_reference_nfa_only", len(ss) - nre)
+        p.count("asts_with_shortened_re_bound")
+    R = N
     tfull = render(ast, "full")
-    if "full" in modes and re_language(tfull, ss) != R:
+    if "full" in modes and re_language(tfull, ss[:nre]) != R[:nre]:
         p.count("unclassified_full_rendering_disagrees_with_re")
         p.collect("unclassified_regexes", tfull)
         modes = [m for m in modes if m != "full"]
     seen = []
     for mode in modes:
         p.count("presentations")
-        check_case(p, ast, mode, tfull if mode == "full" else tmin, nfa, R, L, Ls, seen)
+        check_case(p, ast, mode, tfull if mode == "full" else tmin, nfa, R, L, Ls, seen, order, RP)
+    p.count("reference_dfa_states", len(nfa.sets))
+    p.count("reference_dfa_transitions", sum(len(t) for t in nfa.tr))
 
 
 def ast_worker(p, shard, L, Ls):
-    for n, i in shard:
-        check_ast(p, asts_of_size(n)[i], L, Ls)
+    for idx, n, i in shard:
+        # the scanner is table driven; the largest ASTs of the thorough tier get the shorter scan inputs
+        check_ast(p, asts_of_size(n)[i], L, Ls if n <= 5 else min(Ls, 4), order=idx)
 
 
 # ---------------------------------------------------------------- (iv) make_scanner on pairs
 
-def check_pair(p, a1, a2, Lv):
+def check_pair(p, a1, a2, Lv, order=None):
     from ppci.lang.tools import regex as rx
     from vf.core import cpu_limit, CpuTimeout, exc_key
     ss, parent, last = strings(Lv)
+
+    def viol(key, what, wit):
+        p.violation(key, what, wit, order=order)
     t1, t2 = render(a1, "min"), render(a2, "min")
     R1, R2 = re_language(t1, ss), re_language(t2, ss)
     w = {"kind": "vector", "pair": [to_list(a1), to_list(a2)]}
@@ -672,14 +737,14 @@ def check_pair(p, a1, a2, Lv):
             sc = rx.make_scanner({"A": t1, "B": t2})
     except (CpuTimeout, WorkLimit, RecursionError):
         p.add()
-        p.violation("vector/diverges", "%s does not terminate" % label, w)
+        viol("vector/diverges", "%s does not terminate" % label, w)
         return
     except Exception as ex:  # noqa
         p.add()
         key = None
         for a, t in ((a1, t1), (a2, t2)):
             key = key or parser_verdict(a, "min", t, RefNFA(a))
-        p.violation(key or exc_key("vector", ex), "%s raised %s: %s" % (label, type(ex).__name__, ex), w)
+        viol(key or exc_key("compile", ex), "%s raised %s: %s" % (label, type(ex).__name__, ex), w)
         return
     idx = {t: i for i, t in enumerate(ss)}
     nullable = R1[0] or R2[0]
@@ -697,7 +762,7 @@ def check_pair(p, a1, a2, Lv):
         except ValueError:
             err = "ValueError"
         except Exception as ex:  # noqa
-            p.violation(exc_key("vector", ex), "%s.scan(%s) raised %s: %s" % (label, show(s), type(ex).__name__, ex), dict(w, s=s))
+            viol(exc_key("vector", ex), "%s.scan(%s) raised %s: %s" % (label, show(s), type(ex).__name__, ex), dict(w, s=s))
             return
         texts = [t[1] if isinstance(t, tuple) and len(t) == 2 else t for t in got]
         ok = texts == exp_toks and (status == "empty" or (err is not None) == (status == "error"))
@@ -715,7 +780,7 @@ def check_pair(p, a1, a2, Lv):
                 key = key or parser_verdict(a, "min", t, RefNFA(a))
             if key is None:
                 key = "vector/name" if bad_name else "vector/split"
-            p.violation(key, "%s.scan(%s) gave %r%s, maximal munch gives %r%s%s"
+            viol(key, "%s.scan(%s) gave %r%s, maximal munch gives %r%s%s"
                         % (label, show(s), got, " then ValueError" if err else "", exp_toks,
                            {"end": "", "error": " then no match", "empty": " (then only the empty token matches)"}[status],
                            "; token %r does not match the expression named %s" % (bad_name[1], bad_name[0]) if bad_name else ""), dict(w, s=s))
@@ -726,7 +791,7 @@ def check_pair(p, a1, a2, Lv):
 
 def pair_worker(p, shard, small, Lv):
     for i, j in shard:
-        check_pair(p, small[i], small[j], Lv)
+        check_pair(p, small[i], small[j], Lv, order=10 ** 7 + (i + j) * 1000 + i)
 
 
 # ---------------------------------------------------------------- locus-key reduction
@@ -776,7 +841,7 @@ def run(ctx):
         got = len(asts_of_size(n))
         if got != EXPECTED_COUNTS[n]:
             raise AssertionError("enumerator produced %d ASTs of size %d, expected %d" % (got, n, EXPECTED_COUNTS[n]))
-        items += [(n, i) for i in range(got)]
+        items += [(len(items) + i, n, i) for i in range(got)]
     ss = strings(L)[0]
     ctx.note("asts", len(items))
     ctx.note("ast_nodes_max", maxn)
@@ -802,6 +867,11 @@ def run(ctx):
     ctx.pmap(pair_worker, pairs, extra=(small, Lv))
     ctx.states = ctx.counters.get("product_states", 0)
     ctx.transitions = ctx.counters.get("product_transitions", 0)
+    if not ctx.transitions:
+        # every table lookup failed (there are violations saying so): report the reference side of the exploration
+        ctx.states = ctx.counters.get("reference_dfa_states", 0)
+        ctx.transitions = ctx.counters.get("reference_dfa_transitions", 0)
+        ctx.note("states_note", "no product transition could be taken on the compiled tables; states/transitions count the reference automaton")
     ctx.traces = ctx.counters.get("strings_run_on_tables", 0)
     n = reduce_keys(ctx.violations)
     if n:
